@@ -5,4 +5,4 @@ import sys
 sys.path[:0] = ['/repo' + "/pulser-core", '/repo' + "/pulser-simulation", "/verif"]
 from symx.replay import replay
 sys.exit(replay(check='checks.c09', kernel='atomic', shape={'device': 'virt_maxseq', 'prefix': 'p1', 'ops': ['eom_on', 'eom_off']},
-                assignment={'pd0/k': 969, 'pd1/k': 2, 'buf#1.start': 0, 'buf#1.end': 4, 'buf#2.start': 0, 'buf#2.end': 5, 'buf#9.start': 0, 'buf#9.end': 20, 'buf#10.start': 0, 'buf#10.end': 21}, label='atomic:eom_off#1'))
+                assignment={'pd0/k': 970, 'pd1/k': 2, 'buf#1.start': 0, 'buf#1.end': 0, 'buf#2.start': 0, 'buf#2.end': 1, 'buf#9.start': 0, 'buf#9.end': 22, 'buf#10.start': 0, 'buf#10.end': 23}, label='atomic:eom_off#1'))
